@@ -146,13 +146,13 @@ reg("C11", "exploration",
     "F6: random histories of length 1..6 over {edit contacts, change key type, change both, toggle external binding, restart, renew on endpoint 0|1|2, CA forgets the account} for one "
     "account on 1..3 endpoints, each followed by a renewal of every endpoint (three attempts allowed); F6x: ALL histories of length <= 4 over 9 steps, one and two endpoints (exhaustive, "
     "thorough tier); F6c: the daemon dies at the n-th storage/network/hook event (incl. between chunks of an account save, and between the delivery of a request and its reply) and is started again; "
-    "F6f: one request of the synchronisation traffic (account update, key roll-over, registration) is cut before delivery, processed with its reply lost, or refused; F6t: 216 account shapes (6 key types x "
+    "F6k: all 42 ordered pairs of the seven key types as a configuration edit (incl. rsa2048 <-> rsa4096, which share their signature algorithm); F6f: one request of the synchronisation traffic (account update, key roll-over, registration) is cut before delivery, processed with its reply lost, or refused; F6t: 216 account shapes (6 key types x "
     "1..3 endpoints x 0..2 superseded keys x ASCII/Unicode name x binding) each cut at EVERY offset and booted. Oracles: newAccount only with no stored URL / after accountDoesNotExist / "
     "changed binding; after each successful renewal the CA's record (key thumbprint, contacts) equals the configuration, at most one update per item; in-memory account before a quiescent "
     "stop equals the account loaded at the next boot; a truncated account file => the daemon refuses to start and the file is untouched; the final renewal of every endpoint (three attempts) "
     "must succeed, also in plans with network faults once two of those attempts began after the last fault (except after a roll-over whose reply was lost). Non-trivial = a renewal was judged, a restart compared, "
     "or a truncation point booted.",
-    quick=[("F6", 500), ("F6c", 300), ("F6f", 300), ("F6t", 6)], thorough=[("F6", 20000), ("F6x", 20000), ("F6c", 10000), ("F6f", 10000), ("F6t", 216)],
+    quick=[("F6", 500), ("F6k", 100000), ("F6c", 300), ("F6f", 300), ("F6t", 6)], thorough=[("F6", 20000), ("F6x", 20000), ("F6k", 100000), ("F6c", 10000), ("F6f", 10000), ("F6t", 216)],
     assumptions=["restart = the daemon's future is dropped (process-crash model: completed write(2)s survive; acmed never syncs, so power loss is not claimed)",
                  "an attempt that fails while the record is already in line is C07's matter; reported here only if three further attempts do not converge",
                  "simulated restarts inside one plan share one process image (a process-wide cache added by a change would survive them); every plan starts in a fresh one"],
